@@ -27,11 +27,11 @@ fn nontrivial(s: &Stats, _c: &Case) -> bool {
     s.has("refusal_mid_history")
 }
 
-fn report(c: &Case) -> CaseReport {
+pub fn report(c: &Case) -> CaseReport {
     history_report(c, oracles(), nontrivial)
 }
 
-fn strategy(tier: Tier) -> BoxedStrategy<Case> {
+pub fn strategy(tier: Tier) -> BoxedStrategy<Case> {
     // a share of the histories starts on a foreign file that carries tolerated deviations
     // (non-zero CLSID/times on streams, start/size on storages, wrong root name, ...): a
     // refused call must not "repair" them either
